@@ -7,6 +7,7 @@ import (
 	"os"
 	"path/filepath"
 	"sort"
+	"strings"
 	"testing"
 
 	"github.com/ory/x/logrusx"
@@ -49,4 +50,43 @@ func TestVerifC19SecondFileWipesTheFirst(t *testing.T) {
 	if len(got) != 2 || got[0] != "Alpha" || got[1] != "Beta" {
 		t.Fatalf("DEFECT: directory with a.ts (class Alpha) and b.ts (class Beta), both valid: visible namespaces after the initial load are %v, want [Alpha Beta]", got)
 	}
+}
+
+// Observation (not an obligation of the C19 check, see DESIGN.md §6 by-products): the OPL watcher
+// replaces the visible namespaces only when EVERY watched file parses. While one file is invalid,
+// (1) a valid new version of another file does not take effect and (2) a removed file stays visible.
+func TestVerifC19ObservationOneInvalidFileBlocksTheOthers(t *testing.T) {
+	dir := t.TempDir()
+	write := func(name, content string) {
+		if err := os.WriteFile(filepath.Join(dir, name), []byte(content), 0o600); err != nil {
+			t.Fatal(err)
+		}
+	}
+	write("a.ts", vc19A)
+	write("b.ts", vc19B)
+	ctx, cancel := context.WithCancel(context.Background())
+	defer cancel()
+	nw, err := newOPLConfigWatcher(ctx, &Config{l: logrusx.New("verif", "test")}, dir)
+	if err != nil {
+		t.Fatal(err)
+	}
+	if got := vc19Names(t, nw); len(got) != 2 {
+		t.Fatalf("setup: want [Alpha Beta], got %v", got)
+	}
+	// a.ts becomes invalid: last good version of a.ts stays (fine)
+	nw.files.Lock()
+	nw.files.byPath[filepath.Join(dir, "a.ts")] = strings.NewReader("class Alpha implements Namespace {")
+	nw.parseFiles()
+	nw.files.Unlock()
+	// b.ts gets a new valid version: class Gamma instead of Beta
+	nw.files.Lock()
+	nw.files.byPath[filepath.Join(dir, "b.ts")] = strings.NewReader("class Gamma implements Namespace {}")
+	nw.parseFiles()
+	nw.files.Unlock()
+	got := vc19Names(t, nw)
+	t.Logf("after a.ts turned invalid and b.ts changed to a valid new version: %v (per-file keep-last-good would give [Alpha Gamma])", got)
+	if len(got) == 2 && got[0] == "Alpha" && got[1] == "Gamma" {
+		return
+	}
+	t.Errorf("OBSERVATION: the valid new version of b.ts did not take effect while a.ts is invalid: %v", got)
 }
